@@ -75,10 +75,34 @@ type explicit struct {
 	DPOSStartHeight        uint32
 }
 
-// StateLines is the canonical rendering of the DPoS state of in: Arbiters.Snapshot() plus the
-// explicit getters named by the property.
+// liveScalars are the scalar fields of the live StateKeyFrame. Arbiters.Snapshot() goes through
+// StateKeyFrame.snapshot(), which copies the maps and DPoSV2ActiveHeight only, so these fields
+// are always zero in the snapshot and are read from the live state instead (the three fields
+// the property names are rendered through their getters as explicit.*).
+type liveScalars struct {
+	LastRandomCandidateOwner  string
+	VersionStartHeight        uint32
+	VersionEndHeight          uint32
+	LastRandomCandidateHeight uint32
+	DPOSWorkHeight            uint32
+	LastBlockTimestamp        uint32
+	NeedNextTurnDPOSInfo      bool
+	NoProducers               bool
+	NoClaimDPOSNode           bool
+	RevertToPOWBlockHeight    uint32
+	EmergencyInactiveArbiters map[string]struct{}
+}
+
+// StateLines is the canonical rendering of the DPoS state of in: Arbiters.Snapshot(), the scalar
+// fields of the live StateKeyFrame, and the explicit getters named by the property.
 func StateLines(in *Inst) []string {
 	lines := Canon(in.A.Snapshot(), StateCanonOpts)
+	k := in.A.State.StateKeyFrame
+	for _, l := range Canon(liveScalars{k.LastRandomCandidateOwner, k.VersionStartHeight, k.VersionEndHeight, k.LastRandomCandidateHeight,
+		k.DPOSWorkHeight, k.LastBlockTimestamp, k.NeedNextTurnDPOSInfo, k.NoProducers, k.NoClaimDPOSNode, k.RevertToPOWBlockHeight,
+		k.EmergencyInactiveArbiters}, nil) {
+		lines = append(lines, "live"+l)
+	}
 	ex := explicit{in.A.GetConsensusAlgorithm().String(), in.A.GetLastIrreversibleHeight(), in.A.DPOSStartHeight}
 	lines = append(lines, Canon(ex, nil)...)
 	for i := len(lines) - 3; i < len(lines); i++ {
@@ -100,7 +124,7 @@ func DiffFieldNames(a, b []string) []string {
 		m := map[string]bool{}
 		for _, l := range lines {
 			p := l
-			if i := strings.Index(p, " = "); i >= 0 {
+			if i := SepIndex(p); i >= 0 {
 				p = p[:i]
 			}
 			depth := 0
@@ -121,7 +145,7 @@ func DiffFieldNames(a, b []string) []string {
 	set := map[string]bool{}
 	for _, l := range DiffLines(a, b, 0) {
 		side, p := l[0], l[2:]
-		if i := strings.Index(p, " = "); i >= 0 {
+		if i := SepIndex(p); i >= 0 {
 			p = p[:i]
 		}
 		other := pb
